@@ -90,11 +90,17 @@ def patch_playback_tests(crate):
             if 'kani_concrete_playback_' not in s:
                 continue
 
-            def fix(m):
-                t = m.group(0)
-                t = t.replace('let concrete_vals: Vec<Vec<u8>> = vec![', 'let concrete_vals: std::vec::Vec<std::vec::Vec<u8>> = std::vec![')
-                return re.sub(r'(?<![:\w])vec!\[', 'std::vec![', t)
-            s = re.sub(r'fn kani_concrete_playback_\w+\(\) \{.*?\n    \}', fix, s, flags=re.S)
+            out, inside = [], False
+            for line in s.split('\n'):
+                if re.search(r'fn kani_concrete_playback_\w+\(\)', line):
+                    inside = True
+                if inside:
+                    line = line.replace('let concrete_vals: Vec<Vec<u8>> = vec![', 'let concrete_vals: std::vec::Vec<std::vec::Vec<u8>> = std::vec![')
+                    line = re.sub(r'(?<![:\w])vec!\[', 'std::vec![', line)
+                    if 'kani::concrete_playback_run' in line:
+                        inside = False
+                out.append(line)
+            s = '\n'.join(out)
             open(p, 'w').write(s)
 
 
@@ -104,7 +110,7 @@ def playback_sources(crate):
         for f in files:
             if f.endswith('.rs'):
                 s = open(os.path.join(root, f)).read()
-                out += re.findall(r'#\[test\]\s*fn kani_concrete_playback_\w+\(\) \{.*?\n    \}', s, flags=re.S)
+                out += re.findall(r'#\[test\]\s*fn kani_concrete_playback_\w+\(\) \{.*?concrete_playback_run[^\n]*\n\s*\}', s, flags=re.S)
     return '\n\n'.join(out)
 
 
